@@ -222,6 +222,9 @@ class Tr:
         if k in ("CXXMemberCallExpr",):
             callee = strip(kids(n)[0])
             if callee.get("kind") == "MemberExpr" and len(kids(n)) == 1:
+                # reading a std::atomic<T> member through its conversion operator is a read of the member
+                if callee.get("name", "").startswith("operator ") and kids(callee) and "atomic" in ctype(strip(kids(callee)[0])):
+                    return self.atom_key(strip(kids(callee)[0]))
                 ck = self.atom_key(callee)
                 return None if ck is None else ck + "()"
         if k == "CXXOperatorCallExpr":
@@ -410,5 +413,6 @@ def generate(engines):
 
 if __name__ == "__main__":
     import sys
-    for k, v in generate(sys.argv[1:] or ENGINES.all()).items():
+    from vlib import extract as _real   # the module the gen plug-ins import (not this `__main__` copy)
+    for k, v in _real.generate(sys.argv[1:] or _real.ENGINES.all()).items():
         print(k, "ok" if v is None else "FAILED: " + v)
